@@ -121,7 +121,7 @@ int cp_cls_ver(const g1_t a, const g1_t b, const g1_t c, const uint8_t *msg,
 		bn_new(m);
 		bn_new(n);
 
-		if (g1_is_infty(a) || g1_is_infty(b) || g1_is_infty(c)) {
+		if (!g1_is_valid(a) || !g1_is_valid(b) || !g1_is_valid(c)) {
 			result = 0;
 		}
 
@@ -151,6 +151,7 @@ int cp_cls_ver(const g1_t a, const g1_t b, const g1_t c, const uint8_t *msg,
 		}
 	}
 	RLC_CATCH_ANY {
+		result = 0;
 		RLC_THROW(ERR_CAUGHT);
 	}
 	RLC_FINALLY {
@@ -264,10 +265,10 @@ int cp_cli_ver(g1_t a, g1_t A, g1_t b, g1_t B, g1_t c, const uint8_t *msg,
 		bn_new(m);
 		bn_new(n);
 
-		if (g1_is_infty(a) || g1_is_infty(A)) {
+		if (!g1_is_valid(a) || !g1_is_valid(A)) {
 			result = 0;
 		}
-		if (g1_is_infty(b) || g1_is_infty(B) || g1_is_infty(c)) {
+		if (!g1_is_valid(b) || !g1_is_valid(B) || !g1_is_valid(c)) {
 			result = 0;
 		}
 
@@ -311,6 +312,7 @@ int cp_cli_ver(g1_t a, g1_t A, g1_t b, g1_t B, g1_t c, const uint8_t *msg,
 		}
 	}
 	RLC_CATCH_ANY {
+		result = 0;
 		RLC_THROW(ERR_CAUGHT);
 	}
 	RLC_FINALLY {
@@ -432,11 +434,11 @@ int cp_clb_ver(const g1_t a, const g1_t A[], const g1_t b, const g1_t B[],
 		bn_new(m);
 		bn_new(n);
 
-		if (g1_is_infty(a) || g1_is_infty(b) || g1_is_infty(c)) {
+		if (!g1_is_valid(a) || !g1_is_valid(b) || !g1_is_valid(c)) {
 			result = 0;
 		}
 		for (i = 1; i < l; i++) {
-			if (g1_is_infty(A[i - 1]) || g1_is_infty(B[i - 1])) {
+			if (!g1_is_valid(A[i - 1]) || !g1_is_valid(B[i - 1])) {
 				result = 0;
 			}
 		}
@@ -491,6 +493,7 @@ int cp_clb_ver(const g1_t a, const g1_t A[], const g1_t b, const g1_t B[],
 		}
 	}
 	RLC_CATCH_ANY {
+		result = 0;
 		RLC_THROW(ERR_CAUGHT);
 	}
 	RLC_FINALLY {
